@@ -25,7 +25,7 @@ CHECKS = {
             "observation'.",
             "DESIGN.md section 4 C02"),
     "C03": ("exploration",
-            "invariant hook after every operation: carried key == from-scratch key == xor of the 838 components recovered through the public API; run-wide key<->position collision maps; exhaustive component distinctness",
+            "invariant hook after every operation: carried key == from-scratch key == xor of the 838 components recovered through the public API; run-wide key<->position collision maps; transposition pairs built on purpose; exhaustive component distinctness",
             "Same histories as C02. Components are checked exhaustively (pairwise distinct, non-zero); key/position "
             "injectivity is claimed only for the (millions of) positions in the run-wide map.",
             "Independent 128-bit digest for position identity; map capped (size reported in evidence).",
@@ -39,11 +39,11 @@ CHECKS = {
             "use is only observable in the process-level stage.",
             "DESIGN.md section 4 C04"),
     "C05": ("exploration",
-            "offline checker over recorded, timestamped UCI dialogues of the real binary under randomised timing and injected delays (hook H3); hangs decided by a /proc deadlock signature, never by a bare timeout",
+            "offline checker over recorded, timestamped UCI dialogues of the real binary under randomised timing and injected delays (hook H3); hangs decided by two load-independent /proc signatures (all threads asleep in futex with frozen CPU; or input thread asleep in futex while the process burns >= 8 s of its own CPU time), never by a bare timeout",
             "Hundreds (thorough: thousands) of conforming command histories per run with inter-command gaps from 0 to 20 ms "
             "and eight delay configurations holding the windows between 'bestmove printed', 'latch set', 'lock taken' open; "
             "interleaving classes observed are counted (stop while searching / after the search ended on its own / before "
-            "any go, ucinewgame after a finished search, setoption and isready during search).",
+            "any go, ucinewgame after a finished search, setoption and isready during search, quit during search) and the internal event orders seen through the H3 trace points.",
             "Liveness restated as bounded progress; alive-but-slow is inconclusive. Schedules are sampled and forced, not "
             "enumerated.",
             "DESIGN.md section 4 C05"),
@@ -56,7 +56,8 @@ CHECKS = {
     "C17": ("exploration",
             "differential process-level monitor: 'position ... moves ...' on the real binary vs refchess: FEN dump, reply set (the engine's own long-algebraic output) and bestmove membership",
             "Thousands of legal games from startpos and from FENs, up to ~600 plies, with counters for castling, en passant "
-            "and each promotion piece.",
+            "and each promotion piece; plus GUI-like sessions (one game as growing/shrinking/repeated prefixes in one process "
+            "with ucinewgame, isready and searches in between).",
             "En-passant field accepted under any single recording convention; zero-move games must echo the FEN's own field.",
             "DESIGN.md section 4 C17"),
     "C06": ("exploration",
@@ -74,7 +75,7 @@ CHECKS = {
             "Oracle written with coordinate arithmetic only (no bitboard shifts).",
             "DESIGN.md section 4 C07"),
     "C08": ("exploration",
-            "offline checker over recorded search reports: every reported line replayed on refchess, depth sequence and mate-distance/line-length/checkmate consistency",
+            "offline checker over recorded search reports (in-process Reporter and the real binary's info lines): every reported line replayed on refchess, depth sequence and mate-distance/line-length/checkmate consistency",
             "Every SearchInfo of tens of thousands of searches (mates of length 1-7 for and against the root side, used "
             "tables, tiny trees, fifty-move edges) is replayed.",
             "Trusts refchess.",
@@ -91,18 +92,18 @@ CHECKS = {
             "Hash move is legal or none, as the property states.",
             "DESIGN.md section 4 C10"),
     "C11": ("exploration",
-            "online checker along game histories: repetition verdict vs plain scan of recorded position signatures, fifty-move verdict vs clock and legal-move existence; exhaustive material sub-space",
+            "online checker along game histories: repetition verdict vs plain scan of recorded position signatures, fifty-move verdict vs clock and legal-move existence; search-level oracle on clock-99 roots and on announced mate lines; exhaustive material sub-space",
             "Histories steered to shuffle (hundreds of thousands of repetitions incl. at the window edge, FEN starts with "
             "non-zero clocks, castling-right loss inside the window); K v K and K+minor v K over all placements.",
             "With null moves only the sound direction is demanded; two-minor cases are left to the engine.",
             "DESIGN.md section 4 C11"),
     "C12": ("exploration",
             "replay monitor: full search transcripts compared between two runs from identical state (second under machine load) and between a fresh state and an arbitrary history followed by reset",
-            "Hundreds of chains per run (incl. >255 generations, nearly full small tables, resize then reset).",
+            "Hundreds of chains per run (incl. >255 generations, nearly full small tables, resize then reset); on the real binary a fresh process vs history + ucinewgame, half of them with ucinewgame sent inside the bestmove-to-thread-exit window held open by H3.",
             "Transcript excludes time and nps.",
             "DESIGN.md section 4 C12"),
     "C14": ("exploration",
-            "invariant check on the computed limits (hook H2) over a dense grid run completely plus millions of random clock tuples, in checked and optimised builds; CPU-clock-judged timed searches on the real binary",
+            "invariant check on the computed limits (hook H2) over a dense grid run completely plus millions of random clock tuples, in checked and optimised builds; CPU-clock-judged timed searches and 'go movetime' with a move overhead configured on the real binary",
             "Grid of ~49k tuples + random tuples down to 1 ms remaining, with/without the other side's time, moves-to-go 1 "
             "and u32::MAX, overhead up to exactly half.",
             "f32 rounding tolerance of one ulp of the remaining time, stated in DESIGN.md.",
